@@ -141,18 +141,22 @@ class Namespace(argparse.Namespace):
         if len(key_split) > 1:
             parent_key = ".".join(key_split[:-1])
             for subkey in key_split[:-1]:
-                if hasattr(parent_ns, subkey) or (isinstance(parent_ns, dict) and subkey in parent_ns):
+                if isinstance(parent_ns, dict):
+                    subkey = del_clash_mark(subkey)  # keys of a dict value carry no clash mark
+                if subkey in _attrs(parent_ns):
                     parent_ns = parent_ns[subkey]
                     if parent_ns is not None and not isinstance(parent_ns, (Namespace, dict)):
                         return leaf_key, None, parent_key
                 else:
                     return leaf_key, None, parent_key
+        if isinstance(parent_ns, dict):
+            leaf_key = del_clash_mark(leaf_key)
         return leaf_key, parent_ns, parent_key
 
     def _parse_required_key(self, key: str) -> Tuple[str, "Namespace", str]:
         """Same as _parse_key but raises KeyError if key not found."""
         leaf_key, parent_ns, parent_key = self._parse_key(key)
-        if parent_ns is None or not hasattr(parent_ns, leaf_key):
+        if parent_ns is None or leaf_key not in _attrs(parent_ns):
             raise NSKeyError(f'Key "{key}" not found in namespace.')
         return leaf_key, parent_ns, parent_key
 
@@ -167,9 +171,12 @@ class Namespace(argparse.Namespace):
         """
         parent_ns = self
         for key in split_key(key):
-            if not isinstance(getattr(parent_ns, key, None), Namespace):
-                setattr(parent_ns, key, Namespace())
-            parent_ns = getattr(parent_ns, key)
+            attrs = _attrs(parent_ns)
+            if isinstance(parent_ns, dict):
+                key = del_clash_mark(key)
+            if not isinstance(attrs.get(key), (Namespace, dict)):
+                attrs[key] = {} if isinstance(parent_ns, dict) else Namespace()
+            parent_ns = attrs[key]
 
         return parent_ns
 
@@ -186,19 +193,19 @@ class Namespace(argparse.Namespace):
         if parent_ns is None:
             parent_ns = self._create_nested_namespace(parent_key)
         if isinstance(parent_ns, dict):
-            parent_ns[leaf_key] = item
+            parent_ns[del_clash_mark(leaf_key)] = item
         else:
             setattr(parent_ns, leaf_key, item)
 
     def __getitem__(self, key: str) -> Any:
         """Gets an item from a possibly nested namespace."""
         leaf_key, parent_ns, _ = self._parse_required_key(key)
-        return getattr(parent_ns, leaf_key)
+        return _attrs(parent_ns)[leaf_key]
 
     def __delitem__(self, key: str) -> None:
         """Deletes an item from a possibly nested namespace."""
-        leaf_key, parent_ns, _ = self._parse_key(key)
-        del parent_ns.__dict__[leaf_key]
+        leaf_key, parent_ns, _ = self._parse_required_key(key)
+        del _attrs(parent_ns)[leaf_key]
 
     def __contains__(self, key: str) -> bool:
         """Checks if an item is set possibly in a nested namespace."""
@@ -208,7 +215,7 @@ class Namespace(argparse.Namespace):
             leaf_key, parent_ns, _ = self._parse_required_key(key)
         except KeyError:
             return False
-        return leaf_key in parent_ns.__dict__
+        return leaf_key in _attrs(parent_ns)
 
     def __bool__(self) -> bool:
         """Returns False if namespace is empty, otherwise True."""
@@ -314,7 +321,12 @@ class Namespace(argparse.Namespace):
         leaf_key, parent_ns, _ = self._parse_key(key)
         if not parent_ns:
             return default
-        return parent_ns.__dict__.pop(leaf_key, default)
+        return _attrs(parent_ns).pop(leaf_key, default)
+
+
+def _attrs(parent) -> dict:
+    """The mapping that holds the items of a Namespace or of a dict value met along a key."""
+    return parent if isinstance(parent, dict) else getattr(parent, "__dict__", {})
 
 
 clash_names: Set[str] = set(dir(Namespace))
